@@ -1,5 +1,6 @@
 import Ndt.Num
 import Ndt.Model.Poly
+import Ndt.Gen.RichErr
 /-!
 Model of `numdifftools.extrapolation.Richardson` (extrapolation.py:456-576).
 
@@ -46,27 +47,25 @@ not a field operation (the Float driver computes it with `Float.sqrt`; the theor
 `0 ≤ sqrtCov`). -/
 def richFact (t95 eps10 sqrtCov : K) : K := pyMax (t95 * sqrtCov) eps10
 
-/-- `max_abs(a, b) = np.maximum(np.abs a, np.abs b)` on a normed carrier -/
-def maxNrm (nrm : C → K) (a b : C) : K :=
-  let x := nrm a; let y := nrm b; if x < y then y else x
+/-- `max_abs(a, b) = np.maximum(np.abs a, np.abs b)` on a normed carrier (generated) -/
+abbrev maxNrm (nrm : C → K) (a b : C) : K := Gen.maxNrm nrm a b
 
-/-- first branch of `_estimate_error` (`m_old < 2`): `(|new| * EPS + |steps|) * fact`.  The sequence and
-the steps live in a carrier `C` (real or complex numbers), the estimates in the ordered field `K`;
+/-- first branch of `_estimate_error` (`m_old < 2`): `(|new| * EPS + |steps|) * fact`, elementwise with the *generated* element
+function.  The sequence and the steps live in a carrier `C` (real or complex numbers), the estimates in the ordered field `K`;
 `nrm = np.abs`. -/
 def richErrShort (nrm : C → K) (eps fact : K) (new steps : List C) : List K :=
-  List.zipWith (fun n s => (nrm n * eps + nrm s) * fact) new steps
+  List.zipWith (fun n s => Gen.richErrShortElem nrm eps fact n s) new steps
 
 /-- `np.diff` -/
 def diffs : List C → List C
   | a :: b :: rest => (b - a) :: diffs (b :: rest)
   | _ => []
 
-/-- the elementwise loop of the last branch of `_estimate_error` -/
+/-- the elementwise loop of the last branch of `_estimate_error`: the *generated* element function on the aligned slices
+`new[:-1]`, `new[1:]`, `old[-m+1:]` -/
 def richErrGo (nrm : C → K) (eps ten fact : K) : List C → List C → List K
   | a :: b :: rest, o :: os =>
-    let err := nrm (b - a) * fact
-    let tol := maxNrm nrm b a * eps * fact
-    (err + (if err ≤ tol then tol * ten else nrm (a - o) * fact)) :: richErrGo nrm eps ten fact (b :: rest) os
+    Gen.richErrMainElem nrm eps ten fact a b o :: richErrGo nrm eps ten fact (b :: rest) os
   | _, _ => []
 
 /-- last branch of `_estimate_error`: `new` has `m ≥ 2` entries, the result `m - 1`:
